@@ -202,6 +202,17 @@ func (c14) Enumerate(tier string, seed int64, yield func(string, core.Case) bool
 			return
 		}
 	}
+	// MO: seeded catalogue of optimisation problems (8..12 variables, PB constraints, weighted cost function) with the
+	// regression instances and all one-edit neighbours; cutting planes on (default choices) against off
+	{
+		nseeds := 500
+		if thorough {
+			nseeds = 3000
+		}
+		if !enumOptCatalogue(seed, nseeds, func(name string, p Prob) bool { return emit(name, p, 0, false) }) {
+			return
+		}
+	}
 	tightTwin = false
 	pbn := 0
 	enumConstraintSets(tier, func(fam string, p Prob) bool {
